@@ -404,6 +404,70 @@ def all_groups_empty_test(ctx, b, x):
     return None
 
 
+def plain_whole_iter(it):
+    """`it` is the plain shared iterator over a whole vector / slice held in a field (no adaptor, no sub-range)."""
+    it = strip_refs(it)
+    if not (it[0] == "call" and re.search(r"core::slice::<impl \[T\]>::iter$|IntoIterator(>| for &.*>)::into_iter$", it[1] or "") and it[2]):
+        return False
+    src = strip_refs(it[2][0])
+    while True:
+        if src[0] == "call" and re.search(r"Deref>::deref$|DerefMut>::deref_mut$|as_slice$", src[1] or "") and src[2]:
+            src = strip_refs(src[2][0])
+        elif src[0] == "proj" and src[2] == ("*",):
+            src = strip_refs(src[1])
+        else:
+            break
+    return src[0] == "proj" and bool(src[2]) and src[2][-1].startswith(".")
+
+
+def all_groups_empty_traversal(ctx, b, fl, path):
+    """The explicit-loop form of `groups.iter().all(|g| g.is_empty())`, decided on ONE path of a group-loop function: the
+    path holds a complete traversal of the plain iterator over the whole groups vector -- it leaves the traversal through the
+    iterator's None edge, and every element it stepped over crossed the true edge of a crate `is_empty` on that very element
+    before the next step.  Returns the index in `path` where the traversal completed (the None edge), or None."""
+    labs = {}
+
+    def L(a_, b_):
+        if a_ not in labs:
+            labs[a_] = fl.edge_labels(a_)
+        return labs[a_].get(b_, [])
+    done = None
+    for i in range(len(path) - 1):
+        for lab in L(path[i], path[i + 1]):
+            if lab[0] != "variant" or lab[2] != "None":
+                continue
+            nx = strip_refs(lab[1])
+            if not (nx[0] == "call" and re.search(r"core::iter::Iterator>?::next$", nx[1] or "") and nx[2]):
+                continue
+            it = strip_refs(nx[2][0])
+            if not plain_whole_iter(it):
+                continue
+            # the steps of this traversal: visits of the `next` call block since the iterator was last created
+            h, a = nx[3], it[3]
+            starts = [k for k in range(i + 1) if path[k] == a]
+            if not starts:
+                continue
+            steps = [k for k in range(starts[-1], i + 1) if path[k] == h]
+            if not steps:
+                continue
+            ok = True
+            for k0, k1 in zip(steps, steps[1:]):
+                crossed = False
+                for k in range(k0, k1):
+                    for l2 in L(path[k], path[k + 1]):
+                        if l2[0] == "bool" and l2[2] is True and l2[1][0] == "call" and (l2[1][1] or "") in ctx.facts.bodies \
+                                and re.search(r"::is_empty$", l2[1][1]) and l2[1][2]:
+                            base = strip_refs(l2[1][2][0])
+                            while base[0] == "proj" and not (base[1] == nx and base[2][:2] == ("@Some", ".0")):
+                                base = strip_refs(base[1])
+                            if base[0] == "proj" and base[1] == nx:
+                                crossed = True
+                ok = ok and crossed
+            if ok:
+                done = i
+    return done
+
+
 def r2_4(ctx, R, counter_field):
     ctx.rule("R2.4", "Ready(None) only behind emptiness: DRAIN constructs Ready(None) only on the true edge of a test "
                      "that the slot-map counter is 0; unbounded variants only on the true edge of groups.is_empty(); every "
@@ -482,6 +546,32 @@ def r2_4(ctx, R, counter_field):
                 try:
                     ok, na, bad = all_arrivals_cross(b, fl, rb, empt)
                     det = "every one of %d feasible arrivals crosses groups.is_empty()" % na if ok else "arrival without emptiness test: %s" % (bad,)
+                    if not ok:
+                        # ... or holds a complete `for g in groups { if !g.is_empty() { return false } }` traversal
+                        from lib_flow import sensitive_paths, path_const_feasible
+                        labs_ = {}
+                        na, bad = 0, None
+                        for kind, path, know in sensitive_paths(b, fl, 2):
+                            if rb not in path:
+                                continue
+                            i_ = path.index(rb)
+                            if not path_const_feasible(b, path[:i_ + 1]):
+                                continue
+                            na += 1
+                            crossed = False
+                            for j in range(i_):
+                                a_ = path[j]
+                                if a_ not in labs_:
+                                    labs_[a_] = fl.edge_labels(a_)
+                                if any(empt(l_) for l_ in labs_[a_].get(path[j + 1], [])):
+                                    crossed = True
+                                    break
+                            if not crossed and all_groups_empty_traversal(ctx, b, fl, path[:i_ + 1]) is None:
+                                bad = path[:i_ + 1]
+                                break
+                        ok = na > 0 and bad is None
+                        det = "every one of %d feasible arrivals crosses an emptiness test / a whole-groups is_empty traversal" % na \
+                            if ok else "arrival without emptiness test: %s" % (bad,)
                 except RuntimeError as e_:
                     det = str(e_)
             if not ok:
